@@ -633,6 +633,7 @@ void ps_generate (VChoices *c, const GenOpts *o, ProgSpec *ps, VResult *r)
   if (k < 4) target = 1 + (int) vc_pick (c, 4);
   else if (k < 7) target = 1 + (int) vc_pick (c, 12);
   else target = 1 + (int) vc_pick (c, (uint32_t) o->max_insns);
+  if (o->min_insns > 0 && target < o->min_insns) target = o->min_insns;
   if (target > o->max_insns) target = o->max_insns;
   if (o->allow_2d && vc_chance (c, 1, 4)) ps->is2d = 1;
   tries = 0;
